@@ -390,9 +390,10 @@ func (s *Sorts) funcID(name string) int {
 var strAxioms = map[string][]string{
 	"ssub": {
 		"(declare-fun ssub (Str Int Int) Str)",
+	},
+	"ssub-axioms": {
 		"(assert (forall ((s Str) (lo Int) (hi Int)) (! (=> (and (<= 0 lo) (<= lo hi) (<= hi (slen s))) (= (slen (ssub s lo hi)) (- hi lo))) :pattern ((ssub s lo hi)))))",
 		"(assert (forall ((s Str) (lo Int) (hi Int) (i Int)) (! (=> (and (<= 0 lo) (<= lo hi) (<= hi (slen s)) (<= 0 i) (< i (- hi lo))) (= (sat (ssub s lo hi) i) (sat s (+ lo i)))) :pattern ((sat (ssub s lo hi) i)))))",
-		"(assert (forall ((s Str)) (! (= (ssub s 0 (slen s)) s) :pattern ((ssub s 0 (slen s))))))",
 	},
 	"sconcat": {
 		"(declare-fun sconcat (Str Str) Str)",
@@ -423,4 +424,17 @@ func (s *Sorts) strFunDecls() []string {
 		out = append(out, strAxioms[k]...)
 	}
 	return out
+}
+
+// litValue: the Go string a literal constant name stands for
+func (s *Sorts) litValue(name string) (string, bool) {
+	if name == "str_empty" {
+		return "", true
+	}
+	for v, n := range s.strLits {
+		if n == name {
+			return v, true
+		}
+	}
+	return "", false
 }
